@@ -327,6 +327,17 @@ func bounded(fn *ssa.Function, v ssa.Value, k int64, upper bool, at *ssa.BasicBl
 			}
 		}
 	}
+	// x + c and x - c
+	if b, ok := v.(*ssa.BinOp); ok && (b.Op == token.ADD || b.Op == token.SUB) {
+		if cst, isC := eng.ConstInt(b.Y); isC && cst > -(1<<40) && cst < 1<<40 {
+			if b.Op == token.SUB {
+				cst = -cst
+			}
+			if bounded(fn, b.X, k-cst, upper, at, depth+1) {
+				return true
+			}
+		}
+	}
 	// min(x, y) is <= k when one operand is and >= k when both are; max is the dual
 	if kind, args, ok := minMaxCall(v); ok {
 		bx := bounded(fn, args[0], k, upper, at, depth+1)
@@ -395,6 +406,23 @@ func bounded(fn *ssa.Function, v ssa.Value, k int64, upper bool, at *ssa.BasicBl
 			}
 			c, isC := eng.ConstInt(y)
 			if !isC {
+				// v < w (or v <= w) with w itself bounded where v is used: endBucket < numBuckets, numBuckets <= K
+				if depth < 4 && !eng.SameValue(y, v) {
+					if upper && (op == token.LSS || op == token.LEQ) {
+						kk := k
+						if op == token.LSS && kk < 1<<62 {
+							kk = k + 1
+						}
+						return bounded(fn, y, kk, true, at, depth+3)
+					}
+					if !upper && (op == token.GTR || op == token.GEQ) {
+						kk := k
+						if op == token.GTR {
+							kk = k - 1
+						}
+						return bounded(fn, y, kk, false, at, depth+3)
+					}
+				}
 				return false
 			}
 			if upper {
